@@ -73,6 +73,7 @@ func rulesC18(c *Ctx, r *Report) {
 		ruleStaleElem(c, r, tr.AnonFuncs[0])
 	}
 	rulesOpenedHandle(c, r)
+	rulesScanBuf(c, r, "formats/fastq") // Scanner.Buffer after the first Scan panics
 	r.floor("CLOSE", rulesCloseAllExits(c, r), 4, "aio.Open call sites in the File functions (6 today)")
 	rulesTrieKeys(c, r)
 	rulesCanonical(c, r)
